@@ -251,6 +251,11 @@ let split_n (s : string) (n : int) : string list =
     | Some i -> String.sub s 0 i :: go (String.sub s (i + 1) (String.length s - i - 1)) (k - 1) in
   go s n
 
+(* --thm: append the computable premises of the round-trip theorem (Props/C12.v) to every parsed tree *)
+let thm_flag = ref false
+let thm_suffix (tbl : optable) (e : ast) : string =
+  if !thm_flag then "|P" ^ (if premises tbl e then "1" else "0") ^ "K" ^ (if printer_tokens tbl e then "1" else "0") else ""
+
 let rec run_op (h : hstate) (op : string) : string =
   (* `@t/OP`: the model is sequential - the thread name is ignored *)
   if String.length op > 0 && (op.[0] = '@' || op.[0] = '~') then
@@ -269,7 +274,7 @@ let rec run_op (h : hstate) (op : string) : string =
     h.st <- st;
     (match r with
      | Ok e -> let tbl = tbl_now h in
-       "OK:" ^ pr_ast e ^ ":" ^ hex_of_str (api_expr tbl e) ^ ":" ^ hex_of_str (api_describe tbl h.keys e)
+       "OK:" ^ pr_ast e ^ ":" ^ hex_of_str (api_expr tbl e) ^ ":" ^ hex_of_str (api_describe tbl h.keys e) ^ thm_suffix tbl e
      | Err -> "ERR" | Panic -> "PANIC" | Fuel -> "FUEL")
   | ["RT"; x] ->
     let (r, st) = api_h_parse b h.st (str_of_hex x) in
@@ -281,7 +286,7 @@ let rec run_op (h : hstate) (op : string) : string =
        let second = match api_parse tbl x with
          | Ok e2 -> "OK;" ^ pr_ast e2 ^ ";" ^ hex_of_str (api_expr tbl e2)
          | Err -> "ERR" | Panic -> "PANIC" | Fuel -> "FUEL" in
-       "OK:" ^ pr_ast e ^ ":" ^ hex_of_str x ^ ":" ^ second
+       "OK:" ^ pr_ast e ^ ":" ^ hex_of_str x ^ ":" ^ second ^ thm_suffix tbl e
      | Err -> "ERR" | Panic -> "PANIC" | Fuel -> "FUEL")
   | "H" :: hid :: rest ->
     h.st <- api_def_script h.st (n_of_int (int_of_string hid)) (script_of_string (String.concat ":" rest)); "-"
@@ -334,7 +339,7 @@ let rec run_op (h : hstate) (op : string) : string =
 
 let () =
   let table = ref "" in
-  Arg.parse [("--table", Arg.Set_string table, "registry dump")] (fun _ -> ()) "model_run --table FILE";
+  Arg.parse [("--table", Arg.Set_string table, "registry dump"); ("--thm", Arg.Set thm_flag, "append theorem premises")] (fun _ -> ()) "model_run --table FILE";
   if !table <> "" then load_table !table;
   (try while true do
     let line = input_line stdin in
